@@ -8,7 +8,8 @@ graph refers (by identity) to a configuration registered on that model, axes are
 known rank and not repeated after normalisation, `num_shards >= 1`, stages `>= 0`, device indices
 inside the configuration, one record per configuration and one spec per (configuration, value).
 -/
-import IrVerif.Lemmas.DeviceRT
+import IrVerif.Lemmas.DeviceNames
+import IrVerif.Lemmas.DeviceRTLegacy
 namespace IrVerif.Device
 
 /-! ### C19_step -/
@@ -19,14 +20,19 @@ namespace IrVerif.Device
     subgraph to a node, register an initializer, remove a node (with everything nested under it),
     re-attach a removed node (also to another model), edit a shape, assign the annotation tuple of a
     node or the configuration tuple of a model directly, clone (recursively, value map shared across
-    scopes, initializers included), serialize -> deserialize (names resolved through all enclosing
-    scopes) — preserves `DevOK`, provided the in-alphabet condition `Pre` holds for it: ids exist; the
+    scopes, initializers included, the functions of the model each with a cloner of its own), serialize
+    -> deserialize (names resolved through all enclosing scopes; functions with a scope of their own), add
+    a function to a model (its body is edited and annotated like any other graph), `Function.clone`
+    (registered on the model under a new name), `Graph.clone(allow_outer_scope_values=True)` of a subgraph
+    (attached to a node as a further GRAPH attribute; specs on outer-scope values stay on those values)
+    — preserves `DevOK`, provided the in-alphabet condition `Pre` holds for it: ids exist; the
     configuration of an annotation request is registered on the node's model (`shard` cannot check
     that: a node does not reach its model; known finding D192); `cascade=True`; a node is re-attached
     only where the configurations it references are registered; a shape is edited only on a value that
     is not sharded; a directly assigned tuple is itself well formed; clone / round trip of a model
-    whose node and graph lists are closed under nesting; a clone that clones no value twice; a round
-    trip at IR version >= 11 of a model whose named values have unique names. -/
+    whose node and graph lists are closed under nesting; a round
+    trip at IR version >= 11 of a model whose named values have unique names.  (The former clause "a clone
+    clones no value twice" is no longer needed: fix D350, `clone_node` remaps through the node-local io map.) -/
 theorem C19_step (w : World) (op : Op) (h : DevOK w) (hpre : Pre w op) : DevOK (step w op).1 := by
   rw [step_eq_stepD]
   cases op with
@@ -53,6 +59,9 @@ theorem C19_step (w : World) (op : Op) (h : DevOK w) (hpre : Pre w op) : DevOK (
   | resizeOutputs n k => exact DevOK_resizeOutputs h n k
   | clone m => exact DevOK_clone h m hpre
   | roundTrip m => exact DevOK_roundTrip h m hpre
+  | newFunction m => exact DevOK_newFunction h m
+  | cloneFunc m i => exact DevOK_cloneFunc h m i hpre
+  | cloneSub n g => exact DevOK_cloneSub h n g hpre
 
 /-- `Pre` holds for every operation of the history at the world it is applied to -/
 def PreAll : World → List Op → Prop
@@ -100,6 +109,58 @@ example :
     let ops : List Op := [.newModel 11, .newInput 0 "x" none, .newNode 0 [some 0] [("o", none)],
       .addCfg 0 "c" (some 2) [], .shard 0 0 0 0 2 [] none, .removeCfg 0 (.byObj 0) false]
     ¬ DevOK (run {} ops).1 ∧ check (run {} ops).1 0 = [Err.cfgNotDeclared] := by
+  decide
+
+/-! #### the remaining clauses of `Pre` are necessary
+
+Each clause of `Pre` that restricts a call of the public API is shown necessary by a counterexample:
+the history satisfies `PreAll` up to its last operation, the last operation violates exactly that
+clause, and `DevOK` is lost (the model of the internal checker reports it).  The same histories are in
+`corpus/C19/pre-necessary.jsonl`: every run replays them on the real objects and compares the checker
+output with the model's.  None of them is in the alphabet of the property's statement (shape edits,
+moving a node to another model, hand-built tuples, duplicate value names are not "annotating, renaming,
+replacing inputs, resizing outputs, cloning, cascade removal, round trip").
+
+The former clause "a clone clones no value twice" is gone: since the fix of D350 `clone_node` remaps a
+node's specs through that node's own input / output correspondence (`ioMap`), and `DevOK_clone` needs
+nothing but `Closed`. -/
+
+/-- a shape is edited only on unsharded values: shrinking the rank of a sharded value leaves an axis out
+    of range -/
+example :
+    let w := (run {} [.newModel 11, .newInput 0 "x" (some [.int 2, .int 3]), .newNode 0 [some 0] [("o", none)],
+      .addCfg 0 "c" (some 2) [], .shard 0 0 0 1 2 [] none]).1
+    DevOK w ∧ ¬ Pre w (.setShape 0 (some [.int 2])) ∧ ¬ DevOK (step w (.setShape 0 (some [.int 2]))).1 ∧
+    check (step w (.setShape 0 (some [.int 2]))).1 0 = [Err.axisRange] := by
+  decide
+
+/-- a node is re-attached only where its configurations are registered: an annotated node moved to
+    another model references a configuration that model does not declare -/
+example :
+    let w := (run {} [.newModel 11, .newModel 11, .newInput 0 "x" none, .newNode 0 [some 0] [("o", none)],
+      .addCfg 0 "c" (some 2) [], .shard 0 0 0 0 2 [] none, .removeNode 0 0 false]).1
+    DevOK w ∧ ¬ Pre w (.attachNode 1 0) ∧ ¬ DevOK (step w (.attachNode 1 0)).1 ∧
+    check (step w (.attachNode 1 0)).1 1 = [Err.cfgNotDeclared] := by
+  decide
+
+/-- a directly assigned tuple is well formed: a hand-built spec on a value that is not on the node -/
+example :
+    let w := (run {} [.newModel 11, .newInput 0 "x" none, .newInput 0 "y" none, .newNode 0 [some 0] [("o", none)],
+      .addCfg 0 "c" (some 2) [], .shard 0 0 0 0 2 [] none]).1
+    DevOK w ∧ ¬ Pre w (.setDev 0 [⟨0, [⟨1, [], []⟩], none⟩]) ∧
+    ¬ DevOK (step w (.setDev 0 [⟨0, [⟨1, [], []⟩], none⟩])).1 ∧
+    check (step w (.setDev 0 [⟨0, [⟨1, [], []⟩], none⟩])).1 0 = [Err.valNotIO] := by
+  decide
+
+/-- a round trip is taken of a model whose named values have unique names: two graph inputs of the same
+    name are one value after the reload, so the two specs of the node target the same value, one of them
+    with an axis that is out of range for it -/
+example :
+    let w := (run {} [.newModel 11, .newInput 0 "a" (some [.int 2, .int 3]), .newInput 0 "a" (some [.int 4]),
+      .newNode 0 [some 0, some 1] [("o", none)], .addCfg 0 "c" (some 2) [],
+      .shard 0 0 0 1 2 [] none, .shard 0 1 0 0 2 [] none]).1
+    DevOK w ∧ ¬ Pre w (.roundTrip 0) ∧ (step w (.roundTrip 0)).2 = .ok ∧ ¬ DevOK (step w (.roundTrip 0)).1 ∧
+    check (step w (.roundTrip 0)).1 1 = [Err.axisRange] := by
   decide
 
 theorem DevOK_empty : DevOK {} := by
@@ -206,11 +267,78 @@ example :
 
 /-! ### serialization
 
-That serialized `tensor_name` / `configuration_id` are the *current* names holds by construction of the
-model (references are identity-bound, `serSpec` / `serCfg` read the names from the world at
-serialization time): `serModelDev_eq` in `Lemmas/Device.lean`.  It is not counted as a property
-theorem; what ties it to the code is the correspondence, which compares the serialized fields of
-every model after every operation (renames included), and the oracle `oracle_names_current`. -/
+The serializer of the model reads `tensor_name` / `configuration_id` from the value / configuration
+objects at serialization time (`serSpec`, `serCfg`, as `serde.py` 1620-1664 does); the annotation holds
+the object.  What makes "serialized references carry the current names" a statement about *histories*
+is that between the annotation and the serialization anything of the alphabet may happen, renames
+included: `C19_name_frame` (only `Value.name = s` changes the name of an existing value, every other
+operation - clone, round trip, Function.clone, Graph.clone included - only appends objects) and
+`C19_names_current`. -/
+
+/-- **C19_name_frame**: an in-alphabet operation that is not an assignment to the name of `v` keeps
+    the value `v` and its name. -/
+theorem C19_name_frame (w : World) (op : Op) (h : DevOK w) (hpre : Pre w op) (v : VId)
+    (hv : v < w.values.length) (hnr : ¬ op.renames v) :
+    v < (step w op).1.values.length ∧ ((step w op).1.value v).name = (w.value v).name := by
+  rw [step_eq_stepD]
+  exact stepD_name w op h hpre v hv hnr
+
+/-- the name of `v` survives every in-alphabet history without an assignment to it -/
+theorem run_name_kept (v : VId) (ops : List Op) : ∀ (w : World), DevOK w → PreAll w ops →
+    (∀ op ∈ ops, ¬ op.renames v) → v < w.values.length →
+    v < (run w ops).1.values.length ∧ ((run w ops).1.value v).name = (w.value v).name := by
+  induction ops with
+  | nil => intro w _ _ _ hv; exact ⟨hv, rfl⟩
+  | cons op rest ih =>
+    intro w h hp hnr hv
+    obtain ⟨h1, h2⟩ := C19_name_frame w op h hp.1 v hv (hnr op (by simp))
+    obtain ⟨h3, h4⟩ := ih (step w op).1 (C19_step w op h hp.1) hp.2 (fun o ho => hnr o (by simp [ho])) h1
+    exact ⟨h3, by rw [← h2]; exact h4⟩
+
+/-- **C19_names_current**: take any world satisfying the invariant (annotations on `v` included), a
+    successful `v.name = s`, and then ANY in-alphabet history `post` that does not assign to the name of
+    `v` again (edits, further annotations, renames of other values, clones, round trips ...).  In the
+    world reached, `s` is the name of `v`, and whenever the device fields of a model serialize (IR
+    version >= 11) they are, node by node and record by record, the protos built from the *current*
+    names (`cfgProto`: `configuration_id` = name of the configuration object, `tensor_name` = name of
+    the value object) - in particular every serialized spec that targets `v` carries `s`, whatever
+    name `v` had when the annotation was made. -/
+theorem C19_names_current (w : World) (h : DevOK w) (v : VId) (s : String) (post : List Op)
+    (hv : v < w.values.length) (hok : (step w (.rename v s)).2 = .ok)
+    (hpre : PreAll (step w (.rename v s)).1 post) (hnr : ∀ op ∈ post, ¬ op.renames v) :
+    ((run (step w (.rename v s)).1 post).1.value v).name = s ∧
+    ∀ m protos, serModelDev (run (step w (.rename v s)).1 post).1 m = some protos →
+      11 ≤ ((run (step w (.rename v s)).1 post).1.model m).irVersion →
+      protos = ((run (step w (.rename v s)).1 post).1.model m).nodes.map (fun n =>
+        ((run (step w (.rename v s)).1 post).1.node n).dev.map (cfgProto (run (step w (.rename v s)).1 post).1)) ∧
+      ∀ n ∈ ((run (step w (.rename v s)).1 post).1.model m).nodes,
+        ∀ nc ∈ ((run (step w (.rename v s)).1 post).1.node n).dev, ∀ sp ∈ nc.specs, sp.value = v →
+          (specProto (run (step w (.rename v s)).1 post).1 sp).tensor = s := by
+  have h1 : DevOK (step w (.rename v s)).1 := C19_step w _ h trivial
+  have hr : v < (step w (.rename v s)).1.values.length ∧ ((step w (.rename v s)).1.value v).name = s := by
+    rw [step_eq_stepD] at hok ⊢
+    exact rename_name w v s hv hok
+  obtain ⟨_, hk⟩ := run_name_kept v post _ h1 hpre hnr hr.1
+  have hname : ((run (step w (.rename v s)).1 post).1.value v).name = s := by rw [hk]; exact hr.2
+  refine ⟨hname, ?_⟩
+  intro m protos hser hir
+  refine ⟨serModelDev_eq hser hir, ?_⟩
+  intro n _ nc _ sp _ hsv
+  simp only [specProto, hsv]
+  exact hname
+
+/-- non-vacuity: annotate under the name "x", rename to "x2", edit / clone / round trip, rename another
+    value: the serialized spec of node 0 carries "x2" -/
+example :
+    let w := (run {} [.newModel 11, .newInput 0 "x" (some [.int 2, .int 3]), .newInput 0 "y" none,
+      .newNode 0 [some 0, some 1] [("o", none)], .addCfg 0 "c" (some 2) [],
+      .shard 0 0 0 1 2 [0] none]).1
+    let post : List Op := [.shard 0 1 0 0 2 [] none, .clone 0, .rename 1 "y2", .roundTrip 0, .newNode 0 [some 0] [("p", none)]]
+    DevOK w ∧ (step w (.rename 0 "x2")).2 = .ok ∧ PreAll (step w (.rename 0 "x2")).1 post ∧
+    (∀ op ∈ post, ¬ op.renames 0) ∧
+    ((serModelDev (run (step w (.rename 0 "x2")).1 post).1 0).map (fun l => (l.getD 0 []).map (fun p => p.specs.map (·.tensor))))
+      = some [["x2", "y2"]] := by
+  decide
 
 /-- **C19_roundtrip_faithful**: a successful in-alphabet round trip (`DevOK`, IR version >= 11, closed
     lists, unique names of named values; serialization succeeding means every sharded value is named)
@@ -233,6 +361,34 @@ theorem C19_roundtrip_faithful (w : World) (h : DevOK w) (m : MId) (hpre : Pre w
       ∀ p ∈ ps, p.1 ∈ (w.model m).nodes ∧
         NodeRel w (roundTrip w m).1 (w.node p.1) ((roundTrip w m).1.node p.2) :=
   roundTrip_faithful h m hpre hok
+
+/-- **C19_roundtrip_legacy**: a round trip *below* IR version 11 (closed lists, unique names of named
+    values; the IR-version gate of the serializer writes no device field and no model configuration):
+    the world reached satisfies `DevOK`, and when the round trip succeeds the new model - the last one -
+    has no configurations and none of its nodes (nested ones and function bodies included) has an
+    annotation: nothing dangles after the reload.  (`Pre` of `C19_step` keeps round trips at IR
+    version >= 11, where `C19_roundtrip_faithful` says the annotations are reproduced; this theorem is the
+    other half.) -/
+theorem C19_roundtrip_legacy (w : World) (h : DevOK w) (m : MId) (hir : (w.model m).irVersion < 11)
+    (hcl : Closed w (w.model m)) (hU : NamesUnique w (w.model m)) :
+    DevOK (roundTrip w m).1 ∧
+    ((roundTrip w m).2 = .ok →
+      (roundTrip w m).1.models.length = w.models.length + 1 ∧
+      ((roundTrip w m).1.model w.models.length).cfgs = [] ∧
+      ∀ n ∈ ((roundTrip w m).1.model w.models.length).nodes, ((roundTrip w m).1.node n).dev = []) :=
+  roundTrip_legacy h m hir hcl hU
+
+/-- non-vacuity: an annotated IR-10 model (a main-graph node, a nested node and a function-body node carry
+    annotations) is reloaded without them -/
+example :
+    let w := (run {} [.newModel 10, .newInput 0 "x" (some [.int 2, .int 3]), .newNode 0 [some 0] [("o", none)],
+      .addCfg 0 "c" (some 2) [], .shard 0 0 0 1 2 [0] (some 1), .newSubgraph 0, .newNode 1 [some 0] [("t", none)],
+      .shard 1 0 0 0 2 [] none, .newFunction 0, .newInput 2 "fx" none, .newNode 2 [some 3] [("fo", none)],
+      .setStage 2 0 2]).1
+    DevOK w ∧ (w.model 0).irVersion < 11 ∧ Closed w (w.model 0) ∧ NamesUnique w (w.model 0) ∧
+    (w.node 0).dev ≠ [] ∧ (w.node 1).dev ≠ [] ∧ (w.node 2).dev ≠ [] ∧
+    (roundTrip w 0).2 = .ok ∧ ((roundTrip w 0).1.model 1).nodes.length = 3 := by
+  decide
 
 /-- `NodeRel` spelled out -/
 example (w w' : World) (nd nd' : NodeS) : NodeRel w w' nd nd' =
